@@ -115,6 +115,14 @@ def run(prop, tier, replay=None):
             key = (src, case, formula)
             if key not in viol:
                 viol[key] = dict(property=prop, formula=formula, seed=seed, case=rcase, observed=ev, signature=sig, what=what, replay_driver=drv)
+        if not replay or json.load(open(replay)).get("replay_driver") == "wssession":
+            # a WEBSOCKET binding with a response_body, declared through the service configuration: each frame the client
+            # gets is the selected field of the reply (WsSession engine, binding /wr/bidi)
+            from . import wssession as WS
+            wv, wstat, _ = WS.violations(prop, tier, scratch, harness, seed, json.load(open(replay))["cases"] if replay else None)
+            for key, v in wv.items():
+                v["replay_driver"] = "wssession"
+                viol[("wssession", abs(hash(str(key))) % 100000, "WsEcho")] = v
         for fid, n in sorted(known.items()):
             f = next(x for x in findings if x["id"] == fid)
             print("KNOWN-FINDING: property=%s %s (%d observations this run)" % (prop, f["what"], n))
